@@ -25,7 +25,8 @@ func init() {
 			"R4: the callback field is invoked only in the worker, and every origin of the invoked value is nil or the callback of the future just returned by heap.Pop - directly or by a helper all of whose results are nil or such a future (a value carried over an iteration is provably nil). " +
 			"R5: Call stores time.Now().Add(d) into the fire-time field before queueing. " +
 			"R6: the heap, the worker count and the futures' index/callback fields are touched only with the package lock held (heap.Interface methods inherit the lock of their heap.* call sites; a private function is entered with the locks held at all of its call sites, a fixed point over the package; objects under construction - the future in Call, the control block in its constructor - and package init are exempt). " +
-			"R7: the queue's slice and its elements are written only by the heap.Interface methods (all removals go through Pop, which resets the index), and Call hands out a freshly allocated future (a recycled object would make a late Cancel hit another caller's future).",
+			"R7: the queue's slice and its elements are written only by the heap.Interface methods (all removals go through Pop, which resets the index), and Call hands out a freshly allocated future (a recycled object would make a late Cancel hit another caller's future). " +
+			"R8: a future with a callback is in the heap when Call returns: on every path of Call on which the callback is not nil, and on every path of each function the future is handed to on the way, heap.Push of that very future is executed in the caller's own activation (plain or deferred calls, not a goroutine or a side list) - Cancel reads a negative index as 'fired or cancelled' and returns, so an insertion that happens after Call has returned cannot be cancelled; the requirement falls away when Cancel withdraws the callback on every path. When the package starts other goroutines besides the worker, the worker is the started function that pops the heap.",
 		NotDecided: "actual start times and wall-clock behaviour; fairness between workers.",
 		Trusted:    []string{"container/heap calls only Len/Less/Swap/Push/Pop of the interface"},
 	})
@@ -40,7 +41,7 @@ func init() {
 			"R4: the wake-up send is a select with default (never blocks) on a channel created with capacity >= 1 (a token is not lost while the worker is between unlock and select). " +
 			"R5: Less(i,j) is elem[i].fireTime.Before(elem[j].fireTime) (or elem[j].fireTime.After(elem[i].fireTime)). " +
 			"R7: the worker that consumed a wake-up token cannot retire before it has slept (with a recomputed timeout) or popped again - decided with path-sensitive constant propagation of the idle-round counter. " +
-			"R6: the worker re-reads the heap under the lock after every wake-up or timer expiry (no path from the select back to the select without Lock), and sleeps/blocks only with the lock released. R8: a re-used timer is drained when Stop reports it fired. In R6-R8 the select/timer code may stand in a function literal of the worker that runs only as a plain call of the worker (never stored, passed, deferred or started with go): its select is decided where it stands, entered with what holds at every call; a call of a literal that cannot return without having slept counts as sleeping; what the literal returns on its woken paths is carried to the code behind the call. R9: a worker deregisters only when the heap is empty or another worker remains (the guard known directly, or through a flag computed under it on every way the flag can be set). Q1-Q7: the heap index / cancel rules of C12 (a future removed by mistake never fires).",
+			"R6: the worker re-reads the heap under the lock after every wake-up or timer expiry (no path from the select back to the select without Lock), and sleeps/blocks only with the lock released. R8: a re-used timer is drained when Stop reports it fired. In R6-R8 the select/timer code may stand in a function literal of the worker that runs only as a plain call of the worker (never stored, passed, deferred or started with go): its select is decided where it stands, entered with what holds at every call; a call of a literal that cannot return without having slept counts as sleeping; what the literal returns on its woken paths is carried to the code behind the call. R9: a worker deregisters only when the heap is empty or another worker remains (the guard known directly, or through a flag computed under it on every way the flag can be set). R10: the worker (its body, the functions it reaches through plain calls, function literals run as plain calls) waits only with a time bound: a blocking select has a case receiving from a timer, a receive outside a select is a receive from a timer - a bare receive from another channel (the wake channel under a 'a token is there' test) blocks for good once another worker took the token, and the blocked worker is still counted, so the others retire around it and a pending future is not started. Q1-Q7: the heap index / cancel rules of C12 (a future removed by mistake never fires).",
 		NotDecided: "lateness bounds, wind-down time, behaviour under stale wake-up tokens.",
 	})
 }
@@ -125,18 +126,21 @@ func resolveTimerRoles(c *Ctx) *timerRoles {
 		return c.RequireFn(c.P.MethodOf(r.futuresT, name), "heap."+name)
 	}
 	r.swap, r.push, r.pop, r.less, r.lenM = hm("Swap"), hm("Push"), hm("Pop"), hm("Less"), hm("Len")
-	// worker = callee of the go statements
+	// worker = callee of the go statements; when the package starts other goroutines as well, the one that pops the heap
+	var started []*ssa.Function
 	for _, fn := range r.all {
 		ir.Instrs(fn, func(in ssa.Instruction) {
 			if g, ok := in.(*ssa.Go); ok {
 				if cal := ir.StaticCallee(g); cal != nil {
-					if r.worker != nil && r.worker != cal {
-						c.Fatalf("role worker: several functions are started with go")
-					}
-					r.worker = cal
+					started = appendUniqFn(started, cal)
 				}
 			}
 		})
+	}
+	if len(started) > 0 {
+		if r.worker = r.tmPickWorker(started); r.worker == nil {
+			c.Fatalf("role worker: several functions are started with go")
+		}
 	}
 	c.RequireFn(r.worker, "timer.worker")
 	c.Role("timer.worker", relName(r.worker), r.worker.Pos())
@@ -894,7 +898,13 @@ func heapCall(in ssa.Instruction, name string) *ssa.Call {
 	return call
 }
 
-func runC12(c *Ctx) { timerRules(c, "C12.R") }
+func runC12(c *Ctx) {
+	// R8 is about what Cancel may conclude from a negative index: an obligation of C12 only (a late insertion loses no
+	// future and removes no other one, so it is not run as C13.Q / C05.T). It runs first: a hand-off of the insertion is
+	// named as such before the lock rules speak about the code it moved.
+	c.timerCallQueues(resolveTimerRoles(c), "C12.R8")
+	timerRules(c, "C12.R")
+}
 
 // timerRules runs the timer rules under the rule-id prefix pfx (C12.R, C05.T).
 func timerRules(c *Ctx, pfx string) {
@@ -1923,6 +1933,8 @@ func timerLiveRules(c *Ctx, pfx string) {
 				"a worker can deregister while futures are pending and it may be the last one: nobody is left to start them until some later Call spawns a worker")
 		})
 	}
+	// R10 the worker waits only with a time bound
+	c.timerBoundedWaits(r, pfx+"10")
 	c.Saw(r.add, r.worker, r.notify, r.less)
 }
 
